@@ -26,6 +26,7 @@ let () =
             | "msg" -> J_msg.run rest obs, J_msg.oracle rest obs
             | "server" -> J_server.run rest obs, J_server.oracle rest obs
             | "client" -> J_client.run rest obs, J_client.oracle rest obs
+            | "hs" -> J_hs.run rest obs, J_hs.oracle rest obs
             | _ -> "JUDGE-UNKNOWN-COMPONENT", []
           with e -> "JUDGE-EXN " ^ Printexc.to_string e, []) in
         if model_obs <> obs then begin
